@@ -23,7 +23,7 @@ ASSUMPTIONS = [
     'four-column bin edges are centre +/- width/2 in wavelength, reported as 10000/edge in ascending wavenumber; three-column edges are wavelength mid-points (ends mirrored)',
     'binner alignment judged with the C05 overlap-mean reference on a fine native grid (rtol 1e-9)',
 ]
-REQUIRED = {'source:array': 0.2, 'source:text': 0.1, 'source:hdf5-class': 0.08, 'source:hdf5-func': 0.08,
+REQUIRED = {'tied-wavelengths': 0.02, 'source:array': 0.2, 'source:text': 0.1, 'source:hdf5-class': 0.08, 'source:hdf5-func': 0.08,
             'cols:4': 0.3, 'cols:3': 0.05, 'permuted': 0.4}
 
 
@@ -39,7 +39,9 @@ def _case(draw):
     wfac = draw(st.lists(st.floats(0.05, 0.95), min_size=n, max_size=n))
     perm = draw(st.permutations(list(range(n))))
     return {'source': src, 'wl0': wl0, 'ratios': ratios, 'noise': noise, 'enoise': enoise, 'cols': cols,
-            'wfac': wfac, 'perm': perm, 'uniform': draw(st.sampled_from([False, False, False, True]))}
+            'wfac': wfac, 'perm': perm, 'uniform': draw(st.sampled_from([False, False, False, True])),
+            # two rows sharing exactly the same wavelength (two instruments reporting the same point)
+            'tie': draw(st.sampled_from([None, None, None, None, [draw(st.integers(0, 59)), draw(st.integers(0, 59))]]))}
 
 
 def strategy(tier):
@@ -103,6 +105,32 @@ def check(case):
     permuted = not np.array_equal(perm, np.arange(n))
     if permuted:
         out.cls('permuted')
+    tie = case.get('tie')
+    if tie and case['cols'] == 4 and not src.startswith('hdf5') and n >= 3 and tie[0] % n != tie[1] % n:
+        # rows are only re-ordered: with a tie the order among the tied rows is free, everything else is not --
+        # every row given must still be there, with its own value, error and width
+        out.cls('tied-wavelengths')
+        rows = rows.copy()
+        rows[tie[1] % n, 0] = rows[tie[0] % n, 0]
+        tmpdir = tempfile.mkdtemp(prefix='verif_c17_')
+        try:
+            A = load(out, case, rows[perm], tmpdir, 'perm')
+            out.applies('tied-rows-kept')
+            wn_t = np.asarray(A.wavenumberGrid, dtype=float)
+            got_rows = sorted(zip(np.asarray(A.wavelengthGrid, dtype=float).tolist(), np.asarray(A.spectrum, dtype=float).tolist(),
+                                  np.asarray(A.errorBar, dtype=float).tolist()))
+            want_rows = sorted(zip(rows[:, 0].tolist(), rows[:, 1].tolist(), rows[:, 2].tolist()))
+            if wn_t.shape != (n,) or np.any(np.diff(wn_t) < 0) or got_rows != want_rows:
+                out.fail('tied-rows-kept@' + src, '%d rows given, %d kept; the (wavelength, value, error) rows are not those given'
+                         % (n, wn_t.size))
+            elif np.asarray(A.binWidths).shape != (n,):
+                out.fail('tied-rows-kept@widths,' + src, 'widths have shape %s for %d rows' % (np.asarray(A.binWidths).shape, n))
+        except CutError:
+            pass
+        finally:
+            shutil.rmtree(tmpdir, ignore_errors=True)
+        out.nontrivial = True
+        return out
     order = np.argsort(rows[:, 0])[::-1]           # wavelength descending = wavenumber ascending
     srt = rows[order]
     tmpdir = tempfile.mkdtemp(prefix='verif_c17_')
@@ -169,6 +197,26 @@ def check(case):
                 if tot > 0 and not close(got[i], val, rtol=1e-9):
                     out.fail('binner-aligned@%dcol,%s' % (case['cols'], 'perm' if permuted else 'sorted'),
                              'bin %d [%.6g, %.6g]: %r vs overlap mean %r' % (i, lo_all[i], hi_all[i], got[i], val))
+                    break
+            # the same binner is then given another native grid with the same number of points and the same end
+            # points but other interior spacing, without explicit widths (what bin_model does for every sampled
+            # spectrum): element i must again be the overlap mean over bin i
+            out.applies('binner-reuse')
+            t_ = (nat - nat[0]) / (nat[-1] - nat[0])
+            nat2 = nat[0] + (nat[-1] - nat[0]) * (0.35 * t_ + 0.65 * t_ ** 2)
+            nat2[0], nat2[-1] = nat[0], nat[-1]
+            f2 = 2.0 + np.cos(nat2 / (span_hi - span_lo) * 7.0)
+            res1 = cut(out, 'bindown', binner.bindown, nat.copy(), f.copy())      # first grid again, widths implied
+            if got.shape == (n,) and not close(np.asarray(res1[1], dtype=float), got, rtol=1e-9, atol=1e-300):
+                out.fail('binner-reuse@implied-widths', 'uniform native grid: implied widths give another result than the same widths given')
+            res2 = cut(out, 'bindown', binner.bindown, nat2.copy(), f2.copy())
+            got2 = np.asarray(res2[1], dtype=float)
+            _, nw2 = midpoint_widths(nat2)
+            for i in range(n):
+                val, _, tot, _, _ = overlap_mean(nat2 - nw2 / 2, nat2 + nw2 / 2, f2, lo_all[i], hi_all[i])
+                if tot > 1e-9 * (hi_all[i] - lo_all[i]) and (got2.shape != (n,) or not close(got2[i], val, rtol=1e-9)):
+                    out.fail('binner-reuse@%dcol' % case['cols'], 'second native grid, bin %d: %r vs overlap mean %r'
+                             % (i, got2[i] if got2.shape == (n,) else got2.shape, val))
                     break
     except CutError:
         pass
